@@ -390,6 +390,42 @@ def cache_value_view(v, depth: int = 0) -> Any:
     return parts
 
 
+def table_mark(table: Dict[Any, Any]) -> Tuple[int, Any, Any, Any]:
+    """(size, first key, last key, the dict): enough to tell growth from loss without copying a table
+    that may hold 10^5 names (dicts keep insertion order; entries are never deleted one by one)"""
+    n = len(table)
+    first = next(iter(table)) if n else None
+    last = next(reversed(table)) if n else None
+    return (n, first, last, table)
+
+
+def table_new_keys(before, after) -> Optional[List[Any]]:
+    """keys added between two marks of the same table; None when entries were lost"""
+    import itertools
+    n0, first0, last0, t0 = before
+    n1, first1, _last1, t1 = after
+    if t0 is not t1 or n1 < n0 or (n0 and first1 != first0):
+        return None
+    if n0 and next(itertools.islice(t1, n0 - 1, None), None) != last0:
+        return None
+    return list(itertools.islice(t1, n0, None))
+
+
+_INTERN_SEEN: Dict[str, Tuple[int, int]] = {}
+
+
+def _intern_ok(table: Dict[Any, Any], which: str) -> bool:
+    """every entry's name is its key; entries already checked (dicts keep insertion order) are skipped
+    unless the table was replaced or shrank"""
+    import itertools
+    ident, done = _INTERN_SEEN.get(which, (0, 0))
+    if ident != id(table) or done > len(table):
+        done = 0
+    ok = all(v.name == k for k, v in itertools.islice(table.items(), done, None))
+    _INTERN_SEEN[which] = (id(table), len(table))
+    return ok
+
+
 def snapshot() -> Dict[str, Any]:
     from pdfminer import settings
     from pdfminer.cmapdb import CMapDB
@@ -407,15 +443,28 @@ def snapshot() -> Dict[str, Any]:
                    for n in tabs]
     s["cmaps"] = {k: _p(cache_value_view(v)) for k, v in CMapDB._cmap_cache.items()}
     s["umaps"] = {k: _p(cache_value_view(v)) for k, v in CMapDB._umap_cache.items()}
-    s["lits"] = set(PSLiteralTable.dict)
-    s["kws"] = set(PSKeywordTable.dict)
-    s["intern_ok"] = all(v.name == k for k, v in PSLiteralTable.dict.items()) and \
-        all(v.name == k for k, v in PSKeywordTable.dict.items())
+    s["lits"] = table_mark(PSLiteralTable.dict)
+    s["kws"] = table_mark(PSKeywordTable.dict)
+    s["intern_ok"] = _intern_ok(PSLiteralTable.dict, "lit") and _intern_ok(PSKeywordTable.dict, "kw")
     s["strict"] = settings.STRICT
     s["metrics"] = _p(FONT_METRICS)
     s["colorspaces"] = _h([(k, v.name, v.ncomponents) for k, v in PREDEFINED_COLORSPACE.items()])
     s["glyphs"] = len(glyphname2unicode)
     return s
+
+
+INTROSPECTION_ERRORS: List[str] = []
+
+
+def safe_snapshot() -> Optional[Dict[str, Any]]:
+    """The harness looks at internals (cache dictionaries, tables).  If their layout changed so much
+    that they cannot be read, that is a broken tie to report (ctx.disagree), never a crash."""
+    try:
+        return snapshot()
+    except Exception as e:  # noqa: BLE001
+        import traceback
+        INTROSPECTION_ERRORS.append("snapshot: " + traceback.format_exc()[-400:])
+        return None
 
 
 def cmap_exists(name: str) -> bool:
@@ -456,12 +505,12 @@ def allowed_growth(doc: Optional[P.Doc], before: Dict[str, Any], after: Dict[str
         return ("cmap cache gained a key the document does not name", sorted(ok_c), sorted(new_c))
     if not new_u <= ok_u:
         return ("unicode-map cache gained a key the document does not name", sorted(ok_u), sorted(new_u))
-    new_l = after["lits"] - before["lits"]
+    new_l = table_new_keys(before["lits"], after["lits"])
+    if new_l is None or table_new_keys(before["kws"], after["kws"]) is None:
+        return ("interned table lost entries (it was emptied or replaced)", before["lits"][:2], after["lits"][:2])
     bad = [k for k in new_l if (k if isinstance(k, str) else k.decode("latin-1")) not in names]
     if bad:
         return ("literal table gained a name that does not occur in the document", sorted(names)[:20], sorted(map(repr, bad)))
-    if not before["lits"] <= after["lits"] or not before["kws"] <= after["kws"]:
-        return ("interned table lost an entry", None, None)
     return None
 
 
@@ -480,14 +529,15 @@ def is_exc(x) -> bool:
     return isinstance(x, dict) and set(x) == {"exc"}
 
 
-def baseline_job(data: bytes, pw: str, las: List[str], reverse: bool = False) -> Dict[str, Any]:
+def baseline_job(data: bytes, pw: str, las: List[str], reverse: bool = False, light: bool = False) -> Dict[str, Any]:
     res: Dict[str, Any] = {}
     order = list(las)
     if reverse:
         order.reverse()
     for la in order:
         r: Dict[str, Any] = {}
-        steps = ["pages", "text", "singles", "tofp"]
+        # light (bulk documents): extract_pages only - all pages once, then page by page
+        steps = ["pages", "singles"] if light else ["pages", "text", "singles", "tofp"]
         if reverse:
             steps.reverse()
         for st in steps:
@@ -496,13 +546,18 @@ def baseline_job(data: bytes, pw: str, las: List[str], reverse: bool = False) ->
             elif st == "text":
                 r["text"] = _try(lambda: impl_text(data, pw, None, True, la))
             elif st == "singles":
-                n = _try(lambda: len(list(impl_pages_iter(data, pw, None, False, la))))
+                if light and isinstance(r.get("pages"), list):
+                    n = len(r["pages"])
+                else:
+                    n = _try(lambda: len(list(impl_pages_iter(data, pw, None, False, la))))
                 if is_exc(n):
                     # count the pages without interpreting them
                     from pdfminer.pdfpage import PDFPage
                     n = _try(lambda: len(list(PDFPage.get_pages(io.BytesIO(data), password=pw))))
                 r["npages"] = n
-                r["singles"] = n if is_exc(n) else [_try(lambda k=k: impl_text(data, pw, [k], True, la)) for k in range(n)]
+                if not light:
+                    r["singles"] = n if is_exc(n) else [_try(lambda k=k: impl_text(data, pw, [k], True, la))
+                                                        for k in range(n)]
                 r["single_pages"] = n if is_exc(n) else [
                     _try(lambda k=k: [canon_page(p) for p in impl_pages_iter(data, pw, [k], True, la)]) for k in range(n)]
             else:
@@ -514,11 +569,11 @@ def baseline_job(data: bytes, pw: str, las: List[str], reverse: bool = False) ->
 
 def worker_main() -> None:
     job = json.load(sys.stdin)
-    out = baseline_job(bytes.fromhex(job["doc"]), job["pw"], job["las"], job.get("reverse", False))
+    out = baseline_job(bytes.fromhex(job["doc"]), job["pw"], job["las"], job.get("reverse", False), job.get("light", False))
     json.dump(out, sys.stdout)
 
 
-def spawn_worker(data: bytes, pw: str, las: List[str], reverse: bool = False) -> subprocess.Popen:
+def spawn_worker(data: bytes, pw: str, las: List[str], reverse: bool = False, light: bool = False) -> subprocess.Popen:
     code = ("import sys; sys.path.insert(0, %r); from harness.props import c12; c12.worker_main()" % C.TOOLS)
     env = dict(os.environ)
     env["VERIF_REPO"] = C.REPO
@@ -526,7 +581,7 @@ def spawn_worker(data: bytes, pw: str, las: List[str], reverse: bool = False) ->
     p = subprocess.Popen([sys.executable, "-c", code], stdin=subprocess.PIPE, stdout=subprocess.PIPE,
                          stderr=subprocess.PIPE, env=env)
     assert p.stdin is not None
-    p.stdin.write(json.dumps({"doc": data.hex(), "pw": pw, "las": las, "reverse": reverse}).encode())
+    p.stdin.write(json.dumps({"doc": data.hex(), "pw": pw, "las": las, "reverse": reverse, "light": light}).encode())
     p.stdin.close()
     return p
 
@@ -550,7 +605,7 @@ def baselines(docs: List[P.Doc], las_per_doc: List[List[str]], reverse: bool = F
     i = 0
     while i < len(docs):
         batch = list(range(i, min(i + par, len(docs))))
-        procs = [(j, spawn_worker(docs[j].data, docs[j].user, las_per_doc[j], reverse)) for j in batch]
+        procs = [(j, spawn_worker(docs[j].data, docs[j].user, las_per_doc[j], reverse, docs[j].bulk)) for j in batch]
         for j, p in procs:
             res[j] = collect_worker(p)
         i += par
@@ -655,7 +710,7 @@ class Exec:
         """Returns the observed state effects (compared with the model's reply)."""
         kind = op[0]
         docs = self.docs
-        before = snapshot()
+        before = safe_snapshot()
         doc: Optional[P.Doc] = None
         extra: Tuple[str, ...] = ()
         obs = None
@@ -742,7 +797,12 @@ class Exec:
                     doc = docs[di]
                     if hk == "ll":
                         if not dead:
-                            bad = check_cache_inv(hd)
+                            try:
+                                bad = check_cache_inv(hd)
+                            except Exception:  # noqa: BLE001
+                                import traceback
+                                INTROSPECTION_ERRORS.append("cache_inv: " + traceback.format_exc()[-400:])
+                                bad = None
                             if bad is not None:
                                 self.fail(idx, "cache_inv: " + bad[0], bad[2], bad[3], dict(tags, objid=bad[1]))
                     else:
@@ -760,7 +820,9 @@ class Exec:
                           "a result" if not is_exc(exp) else exp,
                           traceback.format_exc()[-600:], dict(tags, exception=type(e).__name__))
             obs = glyphs = None
-        after = snapshot()
+        after = safe_snapshot()
+        if before is None or after is None:
+            return {"caches": None, "glyphs": None, "unreadable": True}
         bad2 = allowed_growth(doc, before, after, extra)
         if bad2 is not None:
             self.fail(idx, "tables_inv: " + bad2[0], repr(bad2[1])[:300], repr(bad2[2])[:300], dict(tags, tables=True))
@@ -768,7 +830,16 @@ class Exec:
                 "cm0": sorted(before["cmaps"]), "um0": sorted(before["umaps"]), "enc": after["encsum"]}
 
     @staticmethod
-    def ll_state(hd: LLHandle) -> str:
+    def ll_state(hd: LLHandle) -> Optional[str]:
+        try:
+            return Exec._ll_state(hd)
+        except Exception:  # noqa: BLE001
+            import traceback
+            INTROSPECTION_ERRORS.append("iterator state: " + traceback.format_exc()[-400:])
+            return None
+
+    @staticmethod
+    def _ll_state(hd: LLHandle) -> str:
         st = hd.state()
         ip = hd.interp
         left = "-"
@@ -821,7 +892,12 @@ class Exec:
 
 def make_pool(seed: str, size: int) -> List[P.Doc]:
     rng = random.Random(seed)
-    docs = P.gen_pool(rng, size)
+    if "/bulk/" in seed:
+        # a small ordinary pool plus, as LAST document, one that makes the process-wide tables grow a lot
+        docs = P.gen_pool(rng, size - 1)
+        docs.append(P.gen_bulk_doc(rng, size - 1))
+    else:
+        docs = P.gen_pool(rng, size)
     for d in docs:
         d.all_fonts = [fd for pf in d.page_fonts for _, _, fd in pf]       # type: ignore[attr-defined]
     return docs
@@ -829,7 +905,7 @@ def make_pool(seed: str, size: int) -> List[P.Doc]:
 
 def pool_las(seed: str, docs: List[P.Doc]) -> List[List[str]]:
     rng = random.Random(seed + "/la")
-    return [["default", rng.choice(LA_NAMES[1:])] for _ in docs]
+    return [["default"] if d.bulk else ["default", rng.choice(LA_NAMES[1:])] for d in docs]
 
 
 def check_baseline_self(ctx: C.Ctx, seed: str, docs: List[P.Doc], base: List[Dict[str, Any]]) -> None:
@@ -846,8 +922,8 @@ def check_baseline_self(ctx: C.Ctx, seed: str, docs: List[P.Doc], base: List[Dic
 
             def first_exc(xs):
                 return next((x for x in xs if is_exc(x)), None)
-            want_text = first_exc(r["singles"]) or "".join(r["singles"])
-            if r["text"] != want_text:
+            want_text = None if "text" not in r else first_exc(r["singles"]) or "".join(r["singles"])
+            if "text" in r and r["text"] != want_text:
                 ctx.fail(C.Failure("extract_text page-at-a-time differs from all pages together (fresh process)",
                                    dict(inp, ops=[["text", d.idx, o]]), r["text"], want_text, {"op": "page-at-a-time"}))
             want_pages = first_exc(r["single_pages"]) or [p for sp in r["single_pages"] for p in sp]
@@ -911,6 +987,24 @@ def report_failure(ctx: C.Ctx, seed: str, size: int, docs, base, ops, ex: Exec) 
                        got if isinstance(got, (str, list, type(None))) else repr(got), tags))
 
 
+def bulk_histories(seed: str, docs: List[P.Doc], las) -> List[List[List[Any]]]:
+    """Ordinary documents before and AFTER a document that makes the process-wide tables grow a lot."""
+    rng = random.Random(seed + "/bulkhist")
+    nb = len(docs) - 1                      # the bulk document is the last one
+    o = lambda d, **kw: dict({"caching": True, "pages": None, "la": "default", "pw": d.user}, **kw)  # noqa: E731
+    ops: List[List[Any]] = []
+    for d in docs[:nb]:
+        ops.append(["text", d.idx, o(d)])
+    ops.append(["pages", nb, o(docs[nb], caching=rng.random() < 0.5)])
+    for d in docs[:nb]:
+        ops.append(["pages", d.idx, o(d, la=las[d.idx][-1])])
+        ops.append(["text", d.idx, o(d, caching=False)])
+    ops.append(["single", nb, o(docs[nb]), 1])
+    ops += [["open", 1, "ll", 0, o(docs[0])], ["next", 1], ["next", 1], ["close", 1]]
+    ops.append(["pages", docs[1 % nb].idx, o(docs[1 % nb])])
+    return [ops, gen_history(rng, docs[:nb], las[:nb], 10)]
+
+
 def run_pool(ctx: C.Ctx, seed: str, size: int, nhist: int, hist_len: int) -> None:
     docs = make_pool(seed, size)
     las = pool_las(seed, docs)
@@ -937,11 +1031,14 @@ def run_pool(ctx: C.Ctx, seed: str, size: int, nhist: int, hist_len: int) -> Non
         for b in docs:
             if a is not b:
                 pair_ops.append(["text", a.idx, {"caching": True, "pages": None, "la": "default", "pw": a.user}])
-                pair_ops.append(["pages", b.idx, {"caching": rng.random() < 0.5, "pages": None, "la": las[b.idx][1],
+                pair_ops.append(["pages", b.idx, {"caching": rng.random() < 0.5, "pages": None, "la": las[b.idx][-1],
                                                   "pw": b.user}])
-    histories = [pair_ops]
+    histories: List[Any] = [pair_ops]
     for hno in range(nhist):
         histories.append(None)
+    if "/bulk/" in seed:
+        histories = bulk_histories(seed, docs, las)
+        ctx.branch("history:after-bulk-document")
     for hno, ops in enumerate(histories):
         if not ctx.time_left():
             ctx.notes.append("time budget reached; stopped generating histories")
@@ -1072,7 +1169,9 @@ def model_check(ctx: C.Ctx, seed: str, docs, ops, ex) -> None:
     """Correspondence: the compiled Lean model runs the same history on the abstract documents;
     cache key sets, shared-table key sets, encoding-table checksums and decoded glyph text must
     agree with what the implementation showed after every operation."""
-    if ctx.driver is None or ex is None or not ex.observed:
+    while INTROSPECTION_ERRORS:
+        ctx.disagree("c12.introspection", {"pool": seed, "size": len(docs)}, INTROSPECTION_ERRORS.pop(0), "readable state")
+    if ctx.driver is None or ex is None or not ex.observed or any(o.get("unreadable") for o in ex.observed):
         return
     first = ex.observed[0]
     head, op_lines, cm, um = model_lines(docs, ops, first["cm0"], first["um0"])
@@ -1149,7 +1248,7 @@ def replay(ctx: C.Ctx, doc, from_corpus: bool = False) -> None:
     used = sorted({op[1] for op in ops if op[0] in ("text", "pages", "tofp", "single")} |
                   {op[3] for op in ops if op[0] == "open"})
     base: List[Any] = [None] * len(docs)
-    sub = baselines([docs[i] for i in used], [LA_NAMES for _ in used])
+    sub = baselines([docs[i] for i in used], [["default"] if docs[i].bulk else LA_NAMES for i in used])
     for i, b in zip(used, sub):
         base[i] = b
     ctx.branch("corpus" if from_corpus else "replay")
@@ -1184,5 +1283,9 @@ def run(ctx: C.Ctx) -> None:
     for pno in range(npools):
         if not ctx.time_left():
             break
+        if pno == 1:
+            # between the pools: a document that makes the process-wide tables grow by 70 000 names and
+            # keywords; every later pool runs in a process that has seen it
+            run_pool(ctx, f"C12/bulk/{ctx.seed}/{ctx.boost}", 4, 0, 0)
         seed = f"C12/{ctx.seed}/{ctx.boost}/{pno}"
         run_pool(ctx, seed, ctx.rng.choice([6, 7, 8]), 10 if ctx.tier == "quick" else 40, ctx.rng.choice([14, 20, 26]))
